@@ -241,10 +241,10 @@ prop("C03", "Comments are never silently dropped", "other",
 
 IDEM = r"idempot|again|twice|second pass|rewriting the result"
 prop("C02", "Formatting is idempotent", "other",
-     [{"unit": "U08", "only": IDEM}, {"unit": "U02", "only": IDEM}, {"unit": "U09", "only": IDEM}, {"unit": "U10", "only": IDEM}, {"unit": "U18", "only": IDEM},
+     [{"unit": "U08", "only": IDEM}, {"unit": "U02", "only": IDEM}, {"unit": "U09", "only": IDEM + r"|at most blank_lines_upper_bound|pushed == clamp"}, {"unit": "U10", "only": IDEM}, {"unit": "U18", "only": IDEM},
       {"unit": "U04", "only": r"^format_lines: trailing newline"}, {"unit": "U14", "only": IDEM + r"|second time"}],
      [{"clause": "newline-style conversion is a fixed point (Unix and Windows converters idempotent)", "status": "bounded", "by": "U08"},
-      {"clause": "the blank-line clamp is a fixed point: a second push with nothing new pushes nothing", "status": "bounded", "by": "U09"},
+      {"clause": "the blank-line clamp is a fixed point: the first pass already lands inside [lower, upper] (exact clamp law), so a second pass finds nothing to clamp; a second push with nothing new pushes nothing", "status": "bounded", "by": "U09"},
       {"clause": "trailing-newline truncation leaves exactly one terminator (a second pass finds nothing to truncate)", "status": "bounded", "by": "U04"},
       {"clause": "remove_trailing_white_spaces and trim_left_preserve_layout are idempotent", "status": "bounded", "by": "U10"},
       {"clause": "literal re-spelling is idempotent (rewriting the rewritten literal changes nothing)", "status": "bounded", "by": "U18"},
